@@ -57,12 +57,42 @@ fn compile_info(files: &[(String, String)], defines: &[(&str, &str)], tgt: Tgt, 
 }
 
 fn compile_info_vl(files: &[(String, String)], defines: &[(&str, &str)], tgt: Tgt, mode: &Mode, validate_layout: bool) -> Verdict {
+    compile_info_target(files, defines, tgt.target(), tgt.buffer_address(), mode, validate_layout)
+}
+
+/// The fifth configuration: `Target::MetalBytecode` = the Msl export handed to the native Metal tool chain.  On a host
+/// without the tool chain (`MetalCompiler::find()` fails) a file that gets through the front end and the export ends in
+/// `CompileError::MetalCompilerNotFound`.
+const MTLB: &str = "mtlb";
+
+fn compile_info_mtlb(files: &[(String, String)], defines: &[(&str, &str)], mode: &Mode, validate_layout: bool) -> Verdict {
+    compile_info_target(files, defines, rssl::Target::MetalBytecode, false, mode, validate_layout)
+}
+
+/// what `metal_invoker::MetalCompiler::find()` says on this host
+fn toolchain_present() -> bool {
+    rssl::metal_invoker::MetalCompiler::find().is_ok()
+}
+
+/// `CompileError::MetalCompilerNotFound(..)` / `MetalCompilerFailed(..)` as `Display` prints them (Debug form)
+fn is_toolchain_error(e: &str) -> bool {
+    e.starts_with("MetalCompilerNotFound(") || e.starts_with("MetalCompilerFailed(")
+}
+
+fn compile_info_target(
+    files: &[(String, String)],
+    defines: &[(&str, &str)],
+    target: rssl::Target,
+    buffer_address: bool,
+    mode: &Mode,
+    validate_layout: bool,
+) -> Verdict {
     let r = guard(|| {
         let mut inc = MemFiles(files.to_vec());
-        let mut args = rssl::CompileArgs::new("main.rssl", &mut inc, tgt.target())
+        let mut args = rssl::CompileArgs::new("main.rssl", &mut inc, target)
             .defines(defines)
             .validate_layout_consistency(validate_layout)
-            .support_buffer_address(tgt.buffer_address());
+            .support_buffer_address(buffer_address);
         match mode {
             Mode::All => {}
             Mode::Named(n) => args = args.pipeline_name(Some(n.as_str())),
@@ -122,6 +152,8 @@ fn class(v: &Verdict) -> &'static str {
     match v {
         Verdict::Ok(_) => "ok",
         Verdict::Err(e) if is_backend_error(e) => "back",
+        Verdict::Err(e) if e.starts_with("MetalCompilerNotFound(") => "tool",
+        Verdict::Err(e) if e.starts_with("MetalCompilerFailed(") => "toolfail",
         Verdict::Err(_) => "front",
         Verdict::Panic(_) => "panic",
     }
@@ -890,7 +922,20 @@ fn run_cross(seed: u64, variant: &str, out: &mut Out, hist: &mut Hist) {
             format!("{}:{}", p.name, st.join(","))
         })
         .collect();
-    let verdicts: Vec<String> = results.iter().map(|(t, v)| format!("{}={}", t.name(), class(v))).collect();
+    let mut verdicts: Vec<String> = results.iter().map(|(t, v)| format!("{}={}", t.name(), class(v))).collect();
+    // the fifth configuration; its verdict is *predicted* by the model from Msl's (Model/CompileSteps.lean), so the
+    // request carries what the prediction needs: which pipeline Metal refused, and whether the host has the tool chain
+    let mtlb = compile_info_mtlb(&files, &defs, &Mode::All, validate);
+    let tool_present = toolchain_present();
+    if let Some((_, msl_v)) = results.iter().find(|(t, _)| *t == Tgt::Msl) {
+        if class(msl_v) == "back" {
+            let bad = pipe_names.iter().position(|n| {
+                matches!(compile_info_vl(&files, &defs, Tgt::Msl, &Mode::Named(n.clone()), validate), Verdict::Err(_))
+            });
+            verdicts.push(format!("mslbad={}", bad.map(|k| k.to_string()).unwrap_or_else(|| "?".into())));
+        }
+    }
+    verdicts.push(format!("tool={}", if tool_present { "present" } else { "absent" }));
     let pipes: Vec<String> = match &b.wide_pipes {
         // the stage lists of a wide program are read off its text: they mean something only if the file is accepted
         Some(_) if !results.iter().any(|(_, v)| matches!(v, Verdict::Ok(_))) => Vec::new(),
@@ -905,7 +950,8 @@ fn run_cross(seed: u64, variant: &str, out: &mut Out, hist: &mut Hist) {
         pipes.join(";"),
         verdicts.join(",")
     );
-    let obs: Vec<String> = results.iter().map(|(t, v)| show_target(t.name(), v, &pipe_names)).collect();
+    let mut obs: Vec<String> = results.iter().map(|(t, v)| show_target(t.name(), v, &pipe_names)).collect();
+    obs.push(show_target(MTLB, &mtlb, &pipe_names));
     let obs = obs.join(" ");
 
     // ---------------------------------------------------------------- the property's own oracle
@@ -946,6 +992,59 @@ fn run_cross(seed: u64, variant: &str, out: &mut Out, hist: &mut Hist) {
                 fails.push(format!("dx panics ({}) but {} does not do the same", p, t.name()));
             }
         }
+    }
+    // 1b. the fifth configuration.  MetalBytecode is the Msl export plus the native tool chain: the front end must say
+    // what it says for every other target (a tool chain error counts as "got past the front end"); a file Msl accepts
+    // is built, or ends in exactly the tool chain error (always, on a host without the tool chain); a file Metal's
+    // exporter refuses is refused with the same text, or - if it was a later pipeline that was refused - ends in the
+    // tool chain error of the first one.
+    {
+        let front5 = |v: &Verdict| -> Result<(), String> {
+            match v {
+                Verdict::Err(e) if is_toolchain_error(e) => Ok(()),
+                other => front(other),
+            }
+        };
+        let dx_panics = matches!(dx, Verdict::Panic(_));
+        if !dx_panics && !matches!(mtlb, Verdict::Panic(_)) && front5(&mtlb) != front(dx) {
+            fails.push(format!(
+                "front-end verdict differs dx vs mtlb: {} / {}",
+                one_line(&format!("{:?}", front(dx)).chars().take(120).collect::<String>()),
+                one_line(&format!("{:?}", match &mtlb { Verdict::Err(e) => Err::<(), String>(e.clone()), _ => front5(&mtlb) }).chars().take(120).collect::<String>())
+            ));
+        }
+        match (msl, &mtlb) {
+            (Verdict::Ok(m), Verdict::Ok(bc)) => {
+                if !tool_present {
+                    fails.push("mtlb produced bytecode although the host has no Metal tool chain".to_string());
+                }
+                let strip = |ps: &Vec<PipeInfo>| ps.iter().map(|p| (p.stages.clone(), p.state.clone(), p.bindings.clone())).collect::<Vec<_>>();
+                if strip(m) != strip(bc) {
+                    fails.push("msl and mtlb report different stages / pipeline state / bindings".to_string());
+                }
+            }
+            (Verdict::Ok(_), Verdict::Err(e)) if is_toolchain_error(e) => {
+                if !tool_present && class(&mtlb) != "tool" {
+                    fails.push(format!("mtlb: expected MetalCompilerNotFound on a host without the tool chain, got {}", one_line(e)));
+                }
+            }
+            (Verdict::Ok(_), other) => {
+                fails.push(format!("msl accepts the file but mtlb says {}: {}", class(other), match other { Verdict::Err(e) => one_line(&e.chars().take(100).collect::<String>()), Verdict::Panic(p) => p.clone(), _ => String::new() }));
+            }
+            (Verdict::Err(em), Verdict::Err(eb)) => {
+                if em != eb && !(is_backend_error(em) && is_toolchain_error(eb)) {
+                    fails.push(format!(
+                        "msl and mtlb reject with different errors: {} / {}",
+                        one_line(&em.chars().take(100).collect::<String>()),
+                        one_line(&eb.chars().take(100).collect::<String>())
+                    ));
+                }
+            }
+            (Verdict::Err(_), Verdict::Ok(_)) => fails.push("msl rejects the file but mtlb builds it".to_string()),
+            (Verdict::Panic(a), Verdict::Panic(bp)) if a == bp => {}
+            (_, Verdict::Panic(_)) | (Verdict::Panic(_), _) => hist.add("backend-or-late-panic:mtlb"),
+        }
+        hist.add(&format!("mtlb={}", class(&mtlb)));
     }
     // 2. the HLSL flavours succeed or fail together
     let okf = |v: &Verdict| matches!(v, Verdict::Ok(_));
@@ -1354,6 +1453,61 @@ fn observed_defines(tgt: Tgt) -> Result<Vec<(String, String)>, String> {
     }
 }
 
+/// The define list of the fifth configuration cannot be read back from an output (on a host without the Metal tool
+/// chain there is none): it is read through the *front-end verdict*.  `#ifdef N` / `#if N == V` around a syntax error:
+/// the file is rejected by the parser exactly when the condition holds, otherwise it gets past the front end.
+fn observed_defines_mtlb() -> Result<Vec<(String, String)>, String> {
+    const VALUES: &[&str] = &["0", "1", "2", "3", "2016", "2017", "2018", "2021", "2022", "202x"];
+    let past_front_end = |src: String| -> Result<bool, String> {
+        let files = [("main.rssl".to_string(), src)];
+        match compile_info_mtlb(&files, &[], &Mode::NoPipeline, false) {
+            Verdict::Ok(_) => Ok(true),
+            Verdict::Err(e) if is_toolchain_error(&e) || is_backend_error(&e) => Ok(true),
+            Verdict::Err(_) => Ok(false),
+            Verdict::Panic(p) => Err(format!("panic {}", p)),
+        }
+    };
+    // the probe itself: a syntax error must be reported, a clean file must not be
+    if past_front_end("static const uint probe = ;\n".to_string())? {
+        return Err("a file with a syntax error is not rejected by the front end".to_string());
+    }
+    if !past_front_end("static const uint probe = 1;\n".to_string())? {
+        return Err("a clean file is rejected".to_string());
+    }
+    let mut out = Vec::new();
+    for n in PROBE_NAMES {
+        if past_front_end(format!("#ifdef {}\nstatic const uint probe = ;\n#endif\n", n))? {
+            continue;
+        }
+        let mut val = "?".to_string();
+        for v in VALUES {
+            if v.chars().all(|c| c.is_ascii_digit())
+                && !past_front_end(format!("#if {} == {}\nstatic const uint probe = ;\n#endif\n", n, v))?
+            {
+                val = v.to_string();
+                break;
+            }
+        }
+        out.push((n.to_string(), val));
+    }
+    Ok(out)
+}
+
+fn run_defines_mtlb(out: &mut Out) {
+    let req = format!("C18.defines\t{}", MTLB);
+    match observed_defines_mtlb() {
+        Ok(ds) => {
+            let obs: Vec<String> = ds.iter().map(|(n, v)| format!("{}={}", n, v)).collect();
+            out.case(&req, &obs.join(";"), "ok");
+        }
+        Err(e) => out.case(
+            &req,
+            &e,
+            &format!("FAIL:front-end verdict for MetalBytecode is not the one every other target gives: {}", e),
+        ),
+    }
+}
+
 fn run_defines(tgt: Tgt, out: &mut Out) {
     let req = format!("C18.defines\t{}", tgt.name());
     match observed_defines(tgt) {
@@ -1540,7 +1694,7 @@ fn parse_user_defines(s: &str) -> Vec<(String, String)> {
         .collect()
 }
 
-fn run_pp(user: &str, program: &str, out: &mut Out, hist: &mut Hist, defs_by_target: &[(Tgt, Vec<(String, String)>)]) {
+fn run_pp(user: &str, program: &str, out: &mut Out, hist: &mut Hist, defs_by_target: &[(&'static str, Vec<(String, String)>)]) {
     let lines: Vec<&str> = program.split(" ;; ").collect();
     let Some(src) = render_pp(&lines) else {
         out.case(&format!("C18.pp\tdx\t{}\t{}", user, program), "", "SKIP:bad program");
@@ -1565,13 +1719,13 @@ fn run_pp(user: &str, program: &str, out: &mut Out, hist: &mut Hist, defs_by_tar
     }
     for (t, o) in &obs_all {
         let oracle = if !mentions && *o != obs_all[0].1 {
-            format!("FAIL:preprocessor output depends on the target although RSSL_TARGET_* is not mentioned: dx `{}` vs {} `{}`", obs_all[0].1, t.name(), o)
+            format!("FAIL:preprocessor output depends on the target although RSSL_TARGET_* is not mentioned: dx `{}` vs {} `{}`", obs_all[0].1, t, o)
         } else if o.starts_with("panic:") && !all_same {
             format!("FAIL:panic {}", &o[6..])
         } else {
             "ok".to_string()
         };
-        out.case(&format!("C18.pp\t{}\t{}\t{}", t.name(), user, program), o, &oracle);
+        out.case(&format!("C18.pp\t{}\t{}\t{}", t, user, program), o, &oracle);
     }
 }
 
@@ -1601,15 +1755,26 @@ pub fn run(args: &Args, out: &mut Out) {
                     Verdict::Panic(e) => println!("==== {} PANIC {}", t.name(), e),
                 }
             }
+            match compile_info_mtlb(&files, &defs, &Mode::All, false) {
+                Verdict::Ok(ps) => println!("==== mtlb OK {} pipelines", ps.len()),
+                Verdict::Err(e) => println!("==== mtlb ERR {}", e),
+                Verdict::Panic(e) => println!("==== mtlb PANIC {}", e),
+            }
         }
         return;
     }
-    let defs_by_target = |out: &mut Out| -> Vec<(Tgt, Vec<(String, String)>)> {
+    let defs_by_target = |out: &mut Out| -> Vec<(&'static str, Vec<(String, String)>)> {
         let _ = out;
-        ALL_TARGETS.iter().map(|t| (*t, observed_defines(*t).unwrap_or_default())).collect()
+        let mut v: Vec<(&'static str, Vec<(String, String)>)> =
+            ALL_TARGETS.iter().map(|t| (t.name(), observed_defines(*t).unwrap_or_default())).collect();
+        // (a define list that cannot be observed is reported by `C18.defines mtlb`, not by every C18.pp program)
+        if let Ok(d) = observed_defines_mtlb() {
+            v.push((MTLB, d));
+        }
+        v
     };
     if let Some(lines) = args.request_lines() {
-        let mut defs: Option<Vec<(Tgt, Vec<(String, String)>)>> = None;
+        let mut defs: Option<Vec<(&'static str, Vec<(String, String)>)>> = None;
         let mut seen_pp: std::collections::HashSet<(String, String)> = Default::default();
         for line in lines {
             let f: Vec<&str> = line.split('\t').collect();
@@ -1622,7 +1787,9 @@ pub fn run(args: &Args, out: &mut Out) {
                 "C18.simplify" if f.len() == 2 => run_simplify(f[1], out, &mut hist),
                 "C18.annot" if f.len() == 4 => run_annot(f[1] == "on", f[2], out, &mut hist),
                 "C18.defines" if f.len() == 2 => {
-                    if let Some(t) = Tgt::parse(f[1]) {
+                    if f[1] == MTLB {
+                        run_defines_mtlb(out);
+                    } else if let Some(t) = Tgt::parse(f[1]) {
                         run_defines(t, out);
                     }
                 }
@@ -1644,6 +1811,7 @@ pub fn run(args: &Args, out: &mut Out) {
     for t in ALL_TARGETS {
         run_defines(t, out);
     }
+    run_defines_mtlb(out);
     let n = args.n.unwrap_or(if args.thorough() { 10000 } else { 500 });
     let mut rng = Rng::new(args.seed);
     for i in 0..n {
